@@ -564,6 +564,16 @@ impl<VM: VMBinding> ImmixSpace<VM> {
     /// Release a block.
     pub fn release_block(&self, block: Block) {
         block.deinit();
+        #[cfg(feature = "mmtk_verif")]
+        crate::verif::gc::ev(
+            crate::verif::gc::Kind::PrReleaseBlock,
+            crate::verif::gc::space_tag(
+                self.get_name(),
+                <Block as crate::util::linear_scan::Region>::BYTES
+                    >> crate::util::constants::LOG_BYTES_IN_PAGE,
+            ),
+            <Block as crate::util::linear_scan::Region>::start(&block).as_usize(),
+        );
         self.pr.release_block(block);
     }
 
@@ -788,6 +798,8 @@ impl<VM: VMBinding> ImmixSpace<VM> {
             if old_value == mark_state {
                 return false;
             }
+            #[cfg(feature = "mmtk_verif")]
+            crate::verif::gc::yp(crate::verif::gc::Site::ImmixAttemptMark);
 
             if VM::VMObjectModel::LOCAL_MARK_BIT_SPEC
                 .compare_exchange_metadata::<VM, u8>(
@@ -869,6 +881,12 @@ impl<VM: VMBinding> ImmixSpace<VM> {
         debug_assert!(RegionIterator::<Line>::new(start, end)
             .all(|line| !line.is_marked(unavail_state) && !line.is_marked(current_state)));
         Some((start, end))
+    }
+
+    /// Verification accessor: the line mark state of the previous GC (private field).
+    #[cfg(feature = "mmtk_verif")]
+    pub fn verif_line_unavail_state(&self) -> u8 {
+        self.line_unavail_state.load(Ordering::Acquire)
     }
 
     pub fn is_last_gc_exhaustive(&self, did_defrag_for_last_gc: bool) -> bool {
